@@ -354,6 +354,8 @@ class Fourati:
             raise ValueError("mag and gyr are not the same size")
         num_samples = len(self.gyr)
         Q = np.zeros((num_samples, 4))
+        if not np.linalg.norm(self.acc[0]) > 0 or not np.linalg.norm(self.mag[0]) > 0:
+            raise ValueError("The first accelerometer and magnetometer samples must be non-zero.")
         Q[0] = ecompass(self.acc[0], self.mag[0], frame='NED', representation='quaternion')
         for t in range(1, num_samples):
             Q[t] = self.update(Q[t-1], self.gyr[t], self.acc[t], self.mag[t])
